@@ -1,3 +1,564 @@
 import HawkModel.Arr
+/-!
+  Lemmas for the binary max-heap model of `HawkModel/Arr.lean`
+  (sift_up / sift_down / pushheap / deleteheap / updateheap).
+
+  The C code moves a "hole" instead of swapping.  With the hole at `index` and the
+  lifted value `tmp`, all statements are phrased over `L := l.set index tmp`.
+
+  * `UpInv L index`   : every edge `i → hparent i` with `i ≠ index` is ordered, and every
+                        child of `index` is below the grandparent `L[hparent index]`.
+  * `DownInv L index` : every edge `i → hparent i` with `hparent i ≠ index` is ordered, and
+                        every child of `index` is below `L[hparent index]`.
+-/
 namespace Hawk.Arr
+
+/-! ### the comparator -/
+
+theorem cmp_pos (a b : Nat) : cmp a b > 0 ↔ b < a := by
+  unfold cmp; split <;> (try split) <;> omega
+
+theorem cmp_nonpos (a b : Nat) : cmp a b ≤ 0 ↔ a ≤ b := by
+  unfold cmp; split <;> (try split) <;> omega
+
+theorem cmp_neg (a b : Nat) : cmp a b < 0 ↔ a < b := by
+  unfold cmp; split <;> (try split) <;> omega
+
+theorem cmp_ne_zero (a b : Nat) : cmp a b ≠ 0 ↔ a ≠ b := by
+  unfold cmp; split <;> (try split) <;> omega
+
+/-! ### reading cells -/
+
+theorem getD_set (l : List Nat) (i j v : Nat) :
+    (l.set i v).getD j 0 = if i = j ∧ i < l.length then v else l.getD j 0 := by
+  simp only [List.getD_eq_getElem?_getD, List.getElem?_set]
+  by_cases h : i = j
+  · subst h
+    by_cases h2 : i < l.length
+    · simp [h2]
+    · simp [h2]
+  · simp [h]
+
+theorem getD_take (l : List Nat) (n j : Nat) :
+    (l.take n).getD j 0 = if j < n then l.getD j 0 else 0 := by
+  simp only [List.getD_eq_getElem?_getD, List.getElem?_take]
+  split <;> simp
+
+theorem getD_append_single (l : List Nat) (v j : Nat) :
+    (l ++ [v]).getD j 0 = if j < l.length then l.getD j 0 else if j = l.length then v else 0 := by
+  simp only [List.getD_eq_getElem?_getD, List.getElem?_append]
+  split
+  · rfl
+  · split
+    · next h => simp [h]
+    · next h1 h2 =>
+      have : j - l.length ≠ 0 := by omega
+      cases hk : j - l.length with
+      | zero => omega
+      | succ k => simp
+
+theorem getD_eq_getElem (l : List Nat) (i : Nat) (h : i < l.length) : l.getD i 0 = l[i] := by
+  simp [List.getD_eq_getElem?_getD, List.getElem?_eq_getElem h]
+
+theorem set_getD_self (l : List Nat) (i : Nat) : l.set i (l.getD i 0) = l := by
+  by_cases h : i < l.length
+  · rw [getD_eq_getElem l i h]; exact List.set_getElem_self h
+  · exact List.set_eq_of_length_le (by omega)
+
+/-! ### lengths -/
+
+theorem siftUpLoop_length (tmp : Nat) (l : List Nat) (i : Nat) :
+    (siftUpLoop tmp l i).1.length = l.length := by
+  fun_induction siftUpLoop tmp l i with
+  | case1 l => simp
+  | case2 l index h parent l1 hp => simp [l1]
+  | case3 l index h parent l1 hp hc => simp [l1]
+  | case4 l index h parent l1 hp hc ih => simpa [l1] using ih
+
+theorem siftDownLoop_length (tmp : Nat) (l : List Nat) (i : Nat) :
+    (siftDownLoop tmp l i).1.length = l.length := by
+  fun_induction siftDownLoop tmp l i with
+  | case1 l index child hc => simp
+  | case2 l index child hc l1 hlt ih => simpa [l1] using ih
+  | case3 l index child hc l1 hlt => simp [l1]
+
+theorem siftUp_length (l : List Nat) (i : Nat) : (siftUp l i).1.length = l.length := by
+  unfold siftUp
+  split
+  · split
+    · exact siftUpLoop_length _ _ _
+    · rfl
+  · rfl
+
+theorem siftDown_length (l : List Nat) (i : Nat) : (siftDown l i).1.length = l.length := by
+  unfold siftDown
+  split
+  · exact siftDownLoop_length _ _ _
+  · rfl
+
+/-! ### permutations -/
+
+/-- overwriting cell `i` with `x` trades `t[i]` for `x` -/
+theorem cons_set_perm (t : List Nat) (i x : Nat) (h : i < t.length) :
+    (t.getD i 0 :: t.set i x).Perm (x :: t) := by
+  induction t generalizing i with
+  | nil => simp at h
+  | cons y ys ih =>
+    cases i with
+    | zero => simpa using List.Perm.swap x y ys
+    | succ k =>
+      have hk : k < ys.length := by simpa using h
+      have h1 := ih k hk
+      have e1 : (y :: ys).getD (k + 1) 0 = ys.getD k 0 := by simp [List.getD_eq_getElem?_getD]
+      rw [e1, List.set_cons_succ]
+      exact (List.Perm.swap y (ys.getD k 0) (ys.set k x)).trans
+        ((h1.cons y).trans (List.Perm.swap x y ys))
+
+/-- one hole move: the hole (holding `tmp`) at `i` and the value at `j` change places -/
+theorem hole_move_perm (l : List Nat) (i j tmp : Nat) (hi : i < l.length) (hj : j < l.length)
+    (hij : i ≠ j) : ((l.set i (l.getD j 0)).set j tmp).Perm (l.set i tmp) := by
+  -- both sides, with `l[j]` put in front, are permutations of `tmp :: l.set i (l[j])`
+  have h1 := cons_set_perm (l.set i (l.getD j 0)) j tmp (by simpa using hj)
+  have e1 : (l.set i (l.getD j 0)).getD j 0 = l.getD j 0 := by
+    rw [getD_set]; simp [hij]
+  rw [e1] at h1
+  have h2 := cons_set_perm (l.set i tmp) i (l.getD j 0) (by simpa using hi)
+  have e2 : (l.set i tmp).getD i 0 = tmp := by
+    rw [getD_set]; simp [hi]
+  rw [e2, List.set_set] at h2
+  -- h1 : l[j] :: (l.set i l[j]).set j tmp ~ tmp :: l.set i l[j]
+  -- h2 : tmp :: l.set i l[j] ~ l[j] :: l.set i tmp
+  exact (h1.trans h2).cons_inv
+
+theorem hparent_lt (i : Nat) (h : i ≠ 0) : hparent i < i := by
+  unfold hparent; omega
+
+theorem siftUpLoop_perm (tmp : Nat) (l : List Nat) (i : Nat) (h : i < l.length) :
+    (siftUpLoop tmp l i).1.Perm (l.set i tmp) := by
+  fun_induction siftUpLoop tmp l i with
+  | case1 l => exact List.Perm.refl _
+  | case2 l index h0 parent l1 hp =>
+    have := hparent_lt index h0
+    exact hole_move_perm l index parent tmp h (by omega) (by omega)
+  | case3 l index h0 parent l1 hp hc =>
+    have := hparent_lt index h0
+    exact hole_move_perm l index parent tmp h (by omega) (by omega)
+  | case4 l index h0 parent l1 hp hc ih =>
+    have := hparent_lt index h0
+    have hpl : parent < l.length := by omega
+    exact (ih (by simpa [l1] using hpl)).trans
+      (hole_move_perm l index parent tmp h hpl (by omega))
+
+theorem siftUp_perm (l : List Nat) (i : Nat) (h : i < l.length) : (siftUp l i).1.Perm l := by
+  unfold siftUp
+  split
+  · split
+    · have := siftUpLoop_perm (l.getD i 0) l i h
+      rwa [set_getD_self] at this
+    · exact List.Perm.refl _
+  · exact List.Perm.refl _
+
+theorem pickChild_cases (l : List Nat) (i : Nat) :
+    pickChild l i = 2 * i + 1 ∨ (pickChild l i = 2 * i + 2 ∧ 2 * i + 2 < l.length) := by
+  unfold pickChild; split
+  · split
+    · right; omega
+    · left; rfl
+  · left; rfl
+
+theorem siftDownLoop_perm (tmp : Nat) (l : List Nat) (i : Nat) (h : i < l.length / 2) :
+    (siftDownLoop tmp l i).1.Perm (l.set i tmp) := by
+  fun_induction siftDownLoop tmp l i with
+  | case1 l index child hc => exact List.Perm.refl _
+  | case2 l index child hc l1 hlt ih =>
+    have hpc := pickChild_cases l index
+    have hcl : child < l.length := by omega
+    exact (ih (by simpa [l1] using hlt)).trans
+      (hole_move_perm l index child tmp (by omega) hcl (by omega))
+  | case3 l index child hc l1 hlt =>
+    have hpc := pickChild_cases l index
+    have hcl : child < l.length := by omega
+    exact hole_move_perm l index child tmp (by omega) hcl (by omega)
+
+theorem siftDown_perm (l : List Nat) (i : Nat) (h : i < l.length) : (siftDown l i).1.Perm l := by
+  have _ := h
+  unfold siftDown
+  split
+  · next h2 =>
+    have := siftDownLoop_perm (l.getD i 0) l i h2
+    rwa [set_getD_self] at this
+  · exact List.Perm.refl _
+
+/-! ### heap order: sift-up -/
+
+/-- the sift-up loop invariant over `L = l.set index tmp` (the hole filled with the lifted value) -/
+def UpInv (L : List Nat) (index : Nat) : Prop :=
+  (∀ i, 0 < i → i < L.length → i ≠ index → L.getD i 0 ≤ L.getD (hparent i) 0) ∧
+  (0 < index → ∀ i, 0 < i → i < L.length → hparent i = index →
+    L.getD i 0 ≤ L.getD (hparent index) 0)
+
+theorem upInv_step (tmp : Nat) (l : List Nat) (index : Nat) (h : index < l.length)
+    (h0 : index ≠ 0) (inv : UpInv (l.set index tmp) index)
+    (hd : l.getD (hparent index) 0 ≤ tmp) :
+    UpInv ((l.set index (l.getD (hparent index) 0)).set (hparent index) tmp) (hparent index) := by
+  obtain ⟨hb, hc⟩ := inv
+  have hpl := hparent_lt index h0
+  refine ⟨?_, ?_⟩
+  · intro i hi0 hil hne
+    have b1 := hb i hi0 (by simpa using hil)
+    have b2 := hb (hparent index)
+    have c1 := hc (by omega) i hi0 (by simpa using hil)
+    have hpi := hparent_lt i (by omega)
+    simp only [getD_set, List.length_set] at *
+    grind
+  · intro hp0 i hi0 hil hpi
+    have b1 := hb i hi0 (by simpa using hil)
+    have b2 := hb (hparent index) hp0 (by simp; omega) (by omega)
+    have hpp := hparent_lt (hparent index) (by omega)
+    simp only [getD_set, List.length_set] at *
+    grind
+
+/-- an `UpInv` list whose remaining edge `index → hparent index` is ordered is a heap -/
+theorem heapOrd_of_upInv (L : List Nat) (index : Nat) (inv : UpInv L index)
+    (hd : 0 < index → L.getD index 0 ≤ L.getD (hparent index) 0) : HeapOrd L := by
+  intro i hi0 hil
+  by_cases hne : i = index
+  · subst hne; exact hd hi0
+  · exact inv.1 i hi0 hil hne
+
+theorem siftUpLoop_heap (tmp : Nat) (l : List Nat) (index : Nat) (h : index < l.length)
+    (inv : UpInv (l.set index tmp) index) (hd : 0 < index → l.getD (hparent index) 0 ≤ tmp) :
+    HeapOrd (siftUpLoop tmp l index).1 := by
+  fun_induction siftUpLoop tmp l index with
+  | case1 l => exact heapOrd_of_upInv _ 0 inv (by omega)
+  | case2 l index h0 parent l1 hp =>
+    have st := upInv_step tmp l index h h0 inv (hd (by omega))
+    exact heapOrd_of_upInv _ parent st (by omega)
+  | case3 l index h0 parent l1 hp hc =>
+    have st := upInv_step tmp l index h h0 inv (hd (by omega))
+    have hpl := hparent_lt index h0
+    have hpp := hparent_lt parent hp
+    refine heapOrd_of_upInv _ parent st ?_
+    intro _
+    rw [cmp_nonpos] at hc
+    have e1 : (l1.set parent tmp).getD parent 0 = tmp := by
+      rw [getD_set]; simp [l1]; omega
+    have e2 : (l1.set parent tmp).getD (hparent parent) 0 = l1.getD (hparent parent) 0 := by
+      rw [getD_set]; simp; omega
+    rw [e1, e2]; exact hc
+  | case4 l index h0 parent l1 hp hc ih =>
+    have st := upInv_step tmp l index h h0 inv (hd (by omega))
+    have hpl := hparent_lt index h0
+    rw [cmp_nonpos] at hc
+    exact ih (by simp [l1]; omega) st (by intro _; omega)
+
+/-- sift_up repairs a list that is heap-ordered except possibly at the edge above `index` -/
+theorem siftUp_heap (l : List Nat) (index : Nat) (h : index < l.length) (inv : UpInv l index) :
+    HeapOrd (siftUp l index).1 := by
+  unfold siftUp
+  split
+  · next hpos =>
+    split
+    · next hc =>
+      rw [cmp_pos] at hc
+      exact siftUpLoop_heap _ l index h (by rwa [set_getD_self]) (by intro _; omega)
+    · next hc =>
+      rw [cmp_pos] at hc
+      exact heapOrd_of_upInv l index inv (by intro _; omega)
+  · next hpos => exact heapOrd_of_upInv l index inv (by omega)
+
+/-! ### heap order: sift-down -/
+
+/-- the sift-down loop invariant over `L = l.set index tmp` -/
+def DownInv (L : List Nat) (index : Nat) : Prop :=
+  (∀ i, 0 < i → i < L.length → hparent i ≠ index → L.getD i 0 ≤ L.getD (hparent i) 0) ∧
+  (0 < index → ∀ i, 0 < i → i < L.length → hparent i = index →
+    L.getD i 0 ≤ L.getD (hparent index) 0)
+
+/-- `pickChild` returns an in-range child of `index` holding the greatest child value -/
+theorem pickChild_spec (l : List Nat) (index : Nat) (h : index < l.length / 2) :
+    pickChild l index < l.length ∧ 0 < pickChild l index ∧ hparent (pickChild l index) = index ∧
+    ∀ i, 0 < i → i < l.length → hparent i = index →
+      l.getD i 0 ≤ l.getD (pickChild l index) 0 := by
+  unfold pickChild
+  split
+  · next h2 =>
+    split
+    · next hc =>
+      rw [cmp_pos] at hc
+      refine ⟨by omega, by omega, by unfold hparent; omega, ?_⟩
+      intro i hi0 hil hpi
+      have : i = 2 * index + 1 ∨ i = 2 * index + 2 := by unfold hparent at hpi; omega
+      rcases this with rfl | rfl <;> omega
+    · next hc =>
+      rw [cmp_pos] at hc
+      refine ⟨by omega, by omega, by unfold hparent; omega, ?_⟩
+      intro i hi0 hil hpi
+      have : i = 2 * index + 1 ∨ i = 2 * index + 2 := by unfold hparent at hpi; omega
+      rcases this with rfl | rfl <;> omega
+  · next h2 =>
+    refine ⟨by omega, by omega, by unfold hparent; omega, ?_⟩
+    intro i hi0 hil hpi
+    have : i = 2 * index + 1 := by unfold hparent at hpi; omega
+    subst this; omega
+
+theorem downInv_step (tmp : Nat) (l : List Nat) (index : Nat) (h : index < l.length / 2)
+    (inv : DownInv (l.set index tmp) index)
+    (hle : tmp ≤ l.getD (pickChild l index) 0) :
+    DownInv ((l.set index (l.getD (pickChild l index) 0)).set (pickChild l index) tmp)
+      (pickChild l index) := by
+  obtain ⟨hb, hc⟩ := inv
+  obtain ⟨hcl, hc0, hpc, hmax⟩ := pickChild_spec l index h
+  generalize pickChild l index = child at *
+  have hil : index < l.length := by omega
+  have hlt : index < child := by have := hparent_lt child (by omega); omega
+  refine ⟨?_, ?_⟩
+  · intro i hi0 hilen hne
+    have b1 := hb i hi0 (by simpa using hilen)
+    have c1 := hc
+    have m1 := hmax i hi0 (by simpa using hilen)
+    have hpi := hparent_lt i (by omega)
+    simp only [getD_set, List.length_set] at *
+    grind
+  · intro _ i hi0 hilen hpi
+    have b1 := hb i hi0 (by simpa using hilen) (by omega)
+    have hpi' := hparent_lt i (by omega)
+    simp only [getD_set, List.length_set] at *
+    grind
+
+/-- a `DownInv` list whose edges below `index` are ordered is a heap -/
+theorem heapOrd_of_downInv (L : List Nat) (index : Nat) (inv : DownInv L index)
+    (hd : ∀ i, 0 < i → i < L.length → hparent i = index → L.getD i 0 ≤ L.getD index 0) :
+    HeapOrd L := by
+  intro i hi0 hil
+  by_cases hne : hparent i = index
+  · have := hd i hi0 hil hne; rwa [hne]
+  · exact inv.1 i hi0 hil hne
+
+theorem siftDownLoop_heap (tmp : Nat) (l : List Nat) (index : Nat) (h : index < l.length / 2)
+    (inv : DownInv (l.set index tmp) index) : HeapOrd (siftDownLoop tmp l index).1 := by
+  fun_induction siftDownLoop tmp l index with
+  | case1 l index child hc =>
+    have hce : child = pickChild l index := rfl
+    rw [cmp_pos, hce] at hc
+    obtain ⟨hcl, hc0, hpc, hmax⟩ := pickChild_spec l index h
+    refine heapOrd_of_downInv _ index inv ?_
+    intro i hi0 hil hpi
+    have m1 := hmax i hi0 (by simpa using hil) hpi
+    have hpi' := hparent_lt i (by omega)
+    have hil' : index < l.length := by omega
+    have hne : ¬ index = i := by omega
+    show (l.set index tmp).getD i 0 ≤ (l.set index tmp).getD index 0
+    rw [getD_set, getD_set]
+    simp only [hne, hil', false_and, true_and, if_false, if_true]
+    omega
+  | case2 l index child hc l1 hlt ih =>
+    have hce : child = pickChild l index := rfl
+    rw [cmp_pos, hce] at hc
+    rw [hce] at hlt
+    have st := downInv_step tmp l index h inv (by omega)
+    exact ih (by simpa [l1] using hlt) st
+  | case3 l index child hc l1 hlt =>
+    have hce : child = pickChild l index := rfl
+    rw [cmp_pos, hce] at hc
+    have st := downInv_step tmp l index h inv (by omega)
+    refine heapOrd_of_downInv _ child st ?_
+    intro i hi0 hil hpi
+    exfalso
+    simp only [List.length_set, l1] at hil
+    unfold hparent at hpi
+    omega
+
+/-- sift_down repairs a list that is heap-ordered except possibly at the edges below `index` -/
+theorem siftDown_heap (l : List Nat) (index : Nat) (inv : DownInv l index) :
+    HeapOrd (siftDown l index).1 := by
+  unfold siftDown
+  split
+  · next h => exact siftDownLoop_heap _ l index h (by rwa [set_getD_self])
+  · next h =>
+    refine heapOrd_of_downInv l index inv ?_
+    intro i hi0 hil hpi
+    exfalso
+    unfold hparent at hpi
+    omega
+
+/-! ### establishing the invariants from a heap -/
+
+theorem heapOrd_take (l : List Nat) (n : Nat) (h : HeapOrd l) : HeapOrd (l.take n) := by
+  intro i hi0 hil
+  have hil' : i < n ∧ i < l.length := by
+    rw [List.length_take] at hil; omega
+  have hpi := hparent_lt i (by omega)
+  have := h i hi0 hil'.2
+  rw [getD_take, getD_take]
+  simp only [hil'.1, (by omega : hparent i < n), if_true]
+  exact this
+
+/-- raising the value at `index` of a heap leaves only the edge above `index` to repair -/
+theorem upInv_set (l : List Nat) (index v : Nat) (h : HeapOrd l) (hi : index < l.length)
+    (hv : l.getD index 0 ≤ v) : UpInv (l.set index v) index := by
+  refine ⟨?_, ?_⟩
+  · intro i hi0 hil hne
+    have h1 := h i hi0 (by simpa using hil)
+    have h2 := h index
+    have hpi := hparent_lt i (by omega)
+    simp only [getD_set, List.length_set] at *
+    grind
+  · intro hpos i hi0 hil hpi
+    have h1 := h i hi0 (by simpa using hil)
+    have h2 := h index hpos hi
+    have hpi' := hparent_lt i (by omega)
+    have hpp := hparent_lt index (by omega)
+    simp only [getD_set, List.length_set] at *
+    grind
+
+/-- lowering the value at `index` of a heap leaves only the edges below `index` to repair -/
+theorem downInv_set (l : List Nat) (index v : Nat) (h : HeapOrd l) (hi : index < l.length)
+    (hv : v ≤ l.getD index 0) : DownInv (l.set index v) index := by
+  refine ⟨?_, ?_⟩
+  · intro i hi0 hil hne
+    have h1 := h i hi0 (by simpa using hil)
+    have hpi := hparent_lt i (by omega)
+    simp only [getD_set, List.length_set] at *
+    grind
+  · intro hpos i hi0 hil hpi
+    have h1 := h i hi0 (by simpa using hil)
+    have h2 := h index hpos hi
+    have hpi' := hparent_lt i (by omega)
+    have hpp := hparent_lt index (by omega)
+    simp only [getD_set, List.length_set] at *
+    grind
+
+/-! ### pushheap -/
+
+theorem pushheap_perm (l : List Nat) (v : Nat) : (pushheap l v).Perm (v :: l) := by
+  unfold pushheap
+  exact (siftUp_perm (l ++ [v]) l.length (by simp)).trans (List.perm_append_singleton v l)
+
+theorem pushheap_heap (l : List Nat) (v : Nat) (h : HeapOrd l) : HeapOrd (pushheap l v) := by
+  unfold pushheap
+  refine siftUp_heap (l ++ [v]) l.length (by simp) ⟨?_, ?_⟩
+  · intro i hi0 hil hne
+    have hil' : i < l.length := by simp at hil; omega
+    have hpi := hparent_lt i (by omega)
+    rw [getD_append_single, getD_append_single]
+    simp only [hil', (by omega : hparent i < l.length), if_true]
+    exact h i hi0 hil'
+  · intro _ i hi0 hil hpi
+    exfalso
+    simp at hil
+    unfold hparent at hpi
+    omega
+
+/-! ### deleteheap -/
+
+theorem take_pred_append_last (l : List Nat) (hl : 0 < l.length) :
+    l.take (l.length - 1) ++ [l.getD (l.length - 1) 0] = l := by
+  have hn : l.length - 1 < l.length := by omega
+  rw [getD_eq_getElem l _ hn, List.take_append_getElem hn]
+  exact List.take_of_length_le (by omega)
+
+theorem deleteheap_perm (l : List Nat) (i : Nat) (hi : i < l.length) :
+    (l[i] :: (deleteheap l i).1).Perm l := by
+  unfold deleteheap
+  simp only [hi, dite_true]
+  have hlast := take_pred_append_last l (by omega)
+  have hpl : (l.getD (l.length - 1) 0 :: l.take (l.length - 1)).Perm l := by
+    have := (List.perm_append_singleton (l.getD (l.length - 1) 0) (l.take (l.length - 1))).symm
+    rwa [hlast] at this
+  split
+  · next hc =>
+    have hin : i < (l.take (l.length - 1)).length := by simp [List.length_take]; omega
+    -- the array handed to the sift functions
+    have e1 : (l.set i (l.getD (l.length - 1) 0)).take (l.length - 1)
+        = (l.take (l.length - 1)).set i (l.getD (l.length - 1) 0) := List.take_set
+    have hl1 : (l[i] :: (l.take (l.length - 1)).set i (l.getD (l.length - 1) 0)).Perm l := by
+      have := cons_set_perm (l.take (l.length - 1)) i (l.getD (l.length - 1) 0) hin
+      rw [getD_take, if_pos (by omega), getD_eq_getElem l i hi] at this
+      exact this.trans hpl
+    rw [e1]
+    have hin' : i < ((l.take (l.length - 1)).set i (l.getD (l.length - 1) 0)).length := by
+      simpa using hin
+    split
+    · exact ((siftUp_perm _ i hin').cons _).trans hl1
+    · split
+      · exact ((siftDown_perm _ i hin').cons _).trans hl1
+      · exact hl1
+  · next hc =>
+    have : i = l.length - 1 := by omega
+    subst this
+    rw [← getD_eq_getElem l _ hi]
+    exact hpl
+
+theorem deleteheap_heap (l : List Nat) (i : Nat) (h : HeapOrd l) (hi : i < l.length) :
+    HeapOrd (deleteheap l i).1 := by
+  unfold deleteheap
+  simp only [hi, dite_true]
+  have ht := heapOrd_take l (l.length - 1) h
+  split
+  · next hc =>
+    have hin : i < (l.take (l.length - 1)).length := by simp [List.length_take]; omega
+    have e1 : (l.set i (l.getD (l.length - 1) 0)).take (l.length - 1)
+        = (l.take (l.length - 1)).set i (l.getD (l.length - 1) 0) := List.take_set
+    have e2 : ((l.take (l.length - 1)).set i (l.getD (l.length - 1) 0)).getD i 0
+        = l.getD (l.length - 1) 0 := by
+      rw [getD_set]; simp only [hin, and_self, if_true]
+    have e3 : (l.take (l.length - 1)).getD i 0 = l[i] := by
+      rw [getD_take, if_pos (by omega), getD_eq_getElem l i hi]
+    rw [e1, e2]
+    have hin' : i < ((l.take (l.length - 1)).set i (l.getD (l.length - 1) 0)).length := by
+      simpa using hin
+    split
+    · next hgt =>
+      rw [cmp_pos] at hgt
+      exact siftUp_heap _ i hin' (upInv_set _ i _ ht hin (by omega))
+    · next hgt =>
+      split
+      · next hlt =>
+        rw [cmp_neg] at hlt
+        exact siftDown_heap _ i (downInv_set _ i _ ht hin (by omega))
+      · next hlt =>
+        rw [cmp_pos] at hgt
+        rw [cmp_neg] at hlt
+        have : l.getD (l.length - 1) 0 = (l.take (l.length - 1)).getD i 0 := by omega
+        rw [this, set_getD_self]
+        exact ht
+  · exact ht
+
+/-! ### updateheap -/
+
+theorem updateheap_perm (l : List Nat) (i v : Nat) (hi : i < l.length) :
+    (updateheap l i v).1.Perm (l.set i v) := by
+  unfold updateheap
+  simp only [hi, dite_true]
+  have hin : i < (l.set i v).length := by simpa using hi
+  split
+  · split
+    · exact siftUp_perm _ i hin
+    · exact siftDown_perm _ i hin
+  · next hc =>
+    have : v = l[i] := by
+      by_cases hv : v = l[i]
+      · exact hv
+      · exact absurd ((cmp_ne_zero v l[i]).mpr hv) hc
+    rw [this, List.set_getElem_self hi]
+
+theorem updateheap_heap (l : List Nat) (i v : Nat) (h : HeapOrd l) (hi : i < l.length) :
+    HeapOrd (updateheap l i v).1 := by
+  unfold updateheap
+  simp only [hi, dite_true]
+  have hin : i < (l.set i v).length := by simpa using hi
+  have e := getD_eq_getElem l i hi
+  split
+  · next hne =>
+    rw [cmp_ne_zero] at hne
+    split
+    · next hgt =>
+      rw [cmp_pos] at hgt
+      exact siftUp_heap _ i hin (upInv_set l i v h hi (by omega))
+    · next hgt =>
+      rw [cmp_pos] at hgt
+      exact siftDown_heap _ i (downInv_set l i v h hi (by omega))
+  · exact h
+
 end Hawk.Arr
